@@ -43,6 +43,7 @@ type cliScenario struct {
 	Full         bool
 	RetryMax     int
 	Readers      int
+	Flip         bool // flip history: every reader asks for the leader of partition 0 of the first topic, as fast as it can
 	Background   bool
 	InitTopics   map[string]int
 	Steps        []cliStep
@@ -132,7 +133,30 @@ func randSubset(rng *rand.Rand, ids []int32, min int) []int32 {
 	return out
 }
 
+// cliGenFlipHistory: one partition whose leadership keeps leaving a broker that changes its address
+// in the same response, and coming back, under several spinning readers.
+func cliGenFlipHistory(rng *rand.Rand) *cliScenario {
+	sc := &cliScenario{Brokers: 3, InitTopics: map[string]int{cliTopicPool[0]: 1 + rng.Intn(2)}, Full: true, RetryMax: 2, Readers: 3 + rng.Intn(4), ReadsPerStep: 400, Flip: true}
+	sc.Version = []sarama.KafkaVersion{sarama.V0_10_2_0, sarama.V1_0_0_0, sarama.V2_1_0_0}[rng.Intn(3)]
+	sc.Seeds = []int32{3}
+	sc.Protect = 3
+	t := cliTopicPool[0]
+	live := []string{t}
+	n := 20 + rng.Intn(30)
+	for i := 0; i < n; i++ {
+		mover := int32(1 + i%2) // brokers 1 and 2 take turns
+		other := int32(3 - int(mover))
+		sc.Steps = append(sc.Steps,
+			cliStep{Op: "set-leader", Topic: t, Part: 0, Broker: mover, Refresh: "full", Live: live},
+			cliStep{Op: "leader-off-and-readdress", Topic: t, Part: 0, Broker: mover, N: int(other), Refresh: "full", Live: live})
+	}
+	return sc
+}
+
 func cliGenHistory(rng *rand.Rand, tier string) *cliScenario {
+	if rng.Intn(12) == 0 {
+		return cliGenFlipHistory(rng)
+	}
 	sc := &cliScenario{Brokers: 1 + rng.Intn(4), InitTopics: map[string]int{}}
 	sc.Version = []sarama.KafkaVersion{sarama.V0_10_2_0, sarama.V1_0_0_0, sarama.V2_1_0_0, sarama.V1_0_0_0}[rng.Intn(4)]
 	sc.Full = rng.Intn(3) != 0
@@ -331,7 +355,38 @@ func cliGenHistory(rng *rand.Rand, tier string) *cliScenario {
 				sh.born[nextBroker] = len(sc.Steps)
 				nextBroker++
 			}
-		case k < 98:
+		case k < 97: // leadership leaves a broker whose address changes in the same breath (one response carries both)
+			if len(withParts) == 0 || len(ids) < 2 {
+				continue
+			}
+			var cand []int32
+			for _, id := range ids {
+				if id != sc.Protect && sh.reachableWithout(id, lastRefresh, sc.Seeds) {
+					cand = append(cand, id)
+				}
+			}
+			if len(cand) == 0 {
+				continue
+			}
+			st.Op, st.Topic = "leader-off-and-readdress", pickTopic(withParts)
+			ps := sh.partIDs(st.Topic)
+			st.Part = ps[rng.Intn(len(ps))]
+			st.Broker = cand[rng.Intn(len(cand))] // the broker that loses the partition and gets a new address
+			st.N = int(ids[rng.Intn(len(ids))])   // the new leader
+			if int32(st.N) == st.Broker {
+				st.N = int(ids[(rng.Intn(len(ids)-1)+1+indexOf(ids, st.Broker))%len(ids)])
+			}
+			// first let the client see that broker as the partition's leader (a step of its own, fully refreshed)
+			pre := cliStep{Op: "set-leader", Topic: st.Topic, Part: st.Part, Broker: st.Broker, Refresh: "full"}
+			for _, t := range sh.topicNames(true) {
+				if !sh.terr[t] {
+					pre.Live = append(pre.Live, t)
+				}
+			}
+			lastRefresh = len(sc.Steps)
+			sc.Steps = append(sc.Steps, pre)
+			sh.born[st.Broker] = len(sc.Steps)
+		case k < 99:
 			st.Op = "set-controller"
 			if rng.Intn(4) == 0 {
 				st.Broker = 9
@@ -401,6 +456,9 @@ func cliApplyStep(sim *sarama.VSim, st *cliStep) {
 		sim.RemoveBroker(st.Broker)
 	case "readdress-broker":
 		sim.Readdress(st.Broker)
+	case "leader-off-and-readdress":
+		sim.Readdress(st.Broker)
+		sim.SetLeader(st.Topic, st.Part, int32(st.N))
 	case "swap-broker":
 		sim.RemoveBroker(st.Broker)
 		sim.AddBroker(int32(st.N))
@@ -502,6 +560,9 @@ func runCliHistory(sc *cliScenario, rng *rand.Rand) proto.Rec {
 					live = sc.Steps[cur-1].Live
 				}
 				api, topic, id := cliPickRead(rrng, live, 2)
+				if sc.Flip {
+					api, topic, id = apiLeader, cliTopicPool[0], 0
+				}
 				r := cliDoRead(cl, crec, api, topic, id)
 				r.who, r.step = ri, int(cur)
 				readerReads[ri] = append(readerReads[ri], r)
@@ -518,12 +579,16 @@ func runCliHistory(sc *cliScenario, rng *rand.Rand) proto.Rec {
 		go func() {
 			defer wg.Done()
 			for n := 0; atomic.LoadInt32(&stop) == 0; n++ {
-				if n >= 12000 {
+				if n >= 12000 && !sc.Flip || n >= 150000 {
 					time.Sleep(200 * time.Microsecond)
 					continue
 				}
 				var r cliRead
-				switch trng.Intn(4) {
+				pick := trng.Intn(4)
+				if sc.Flip {
+					pick = 3
+				}
+				switch pick {
 				case 0:
 					r = cliDoRead(cl, crec, apiBrokers, "", 0)
 				case 1:
@@ -765,4 +830,13 @@ func cliPickRead(rng *rand.Rand, live []string, unknownPct int) (api int, topic 
 		api = apiController
 	}
 	return
+}
+
+func indexOf(ids []int32, x int32) int {
+	for i, v := range ids {
+		if v == x {
+			return i
+		}
+	}
+	return 0
 }
